@@ -16,6 +16,8 @@ MODELS = (
 )
 FAST_MODELS = {("Gaussian", 1), ("Gaussian", 2), ("Exponential", 1), ("Exponential", 2)}
 MAX_DIM = {"Linear": 1, "Circular": 2, "Spherical": 3}
+# families in which an FP trap set by the caller actually trips (see DESIGN 11.4)
+TRAP_PRONE = ["Stable", "TPLStable", "Rational"]
 
 
 def opt_grid(name, dim):
